@@ -10,7 +10,7 @@ from pyvc.api import *
 from pyvc.values import _t
 from pyvc import smt, builtins as bi
 from pyvc.smt import V, I
-from pyvc.interp import Opaque
+from pyvc.interp import Opaque, PyExc
 from contracts.lib_count import counting
 
 SO = 'petl.transform.setops.'
@@ -88,3 +88,68 @@ def make(fname, strict):
 make('iterhashcomplement', False)
 make('iterhashcomplement', True)
 make('iterhashintersection', False)
+
+
+# ------------------------------------------------------------------------------------------------ constructors built from complement
+@vc('C08.ctor.diff-recordcomplement', functions=[SO + 'diff', SO + 'recorddiff', SO + 'recordcomplement'], props=['C08', 'C11'],
+    assumptions=['complement / sort / cut / header through recording summaries (their own contracts: C08.*merge, C05, C12.itercut)',
+                 'two fields in the record forms (the code is uniform in their number: star-args)'])
+def ctor_wiring(h):
+    """diff(a, b) = (complement(b, a), complement(a, b)) over ONE sort of each input, recorddiff likewise over recordcomplement,
+    recordcomplement(a, b) = complement(a, cut(b, *header(a))): b's columns are brought into a's field order BY NAME; strict and the
+    strategy arguments are handed through unchanged."""
+    def body(ctx):
+        it = h.interp(ctx)
+        log = []
+
+        def rec(name, result=None):
+            def summary(interp, args, kw, node):
+                o = Opaque('view', '%s#%d' % (name, len(log)))
+                log.append((name, list(args), dict(kw), o))
+                return o
+            return summary
+        for n in ('complement', 'recordcomplement'):
+            it.summaries[SO + n] = rec(n)
+        it.summaries['petl.transform.sorts.sort'] = rec('sort')
+        it.summaries['petl.transform.basics.cut'] = rec('cut')
+        a, b = Opaque('table', 'a'), Opaque('table', 'b')
+        n1, n2 = sym_cell('n1'), sym_cell('n2')
+        ctx.facts.append(z3.And(z3.Not(smt.py_eq(n1.t, n2.t)), z3.Not(smt.py_eq(n2.t, n1.t)), smt.py_eq(n1.t, n1.t), smt.py_eq(n2.t, n2.t)))
+        it.summaries['petl.util.base.header'] = lambda interp, args, kw, node: (n1, n2) if args[0] is a else (n2, n1)
+        bs, td, ca, st = sym_cell('buffersize'), sym_cell('tempdir'), sym_bool('cache'), sym_bool('strict')
+        strat = dict(buffersize=bs, tempdir=td, cache=ca)
+
+        def same_kw(k, want):
+            return set(k) == set(want) and all(k[x] is want[x] for x in want)
+        # diff
+        del log[:]
+        r = it.call(closure_of(it, SO + 'diff'), [a, b], dict(strat, strict=st))
+        sorts = [e for e in log if e[0] == 'sort']
+        comps = [e for e in log if e[0] == 'complement']
+        ok = len(sorts) == 2 and sorts[0][1] == [a] and sorts[1][1] == [b] and all(same_kw(s[2], strat) for s in sorts) and len(comps) == 2 \
+            and comps[0][1] == [sorts[1][3], sorts[0][3]] and comps[1][1] == [sorts[0][3], sorts[1][3]] \
+            and all(same_kw(c[2], dict(strat, presorted=True, strict=st)) for c in comps) and isinstance(r, tuple) and r[0] is comps[0][3] and r[1] is comps[1][3]
+        ctx.oblige('diff(a, b): each input sorted once on the whole row with the caller\'s strategy; (added, subtracted) = (complement(b, a), complement(a, b)) '
+                   'of those, presorted, with the caller\'s strict flag', z3.BoolVal(bool(ok)))
+        # recorddiff
+        del log[:]
+        r = it.call(closure_of(it, SO + 'recorddiff'), [a, b], dict(strat, strict=st))
+        rc = [e for e in log if e[0] == 'recordcomplement']
+        ok = len(rc) == 2 and len(log) == 2 and rc[0][1] == [b, a] and rc[1][1] == [a, b] and all(same_kw(c[2], dict(strat, strict=st)) for c in rc) \
+            and isinstance(r, tuple) and r[0] is rc[0][3] and r[1] is rc[1][3]
+        ctx.oblige('recorddiff(a, b) = (recordcomplement(b, a), recordcomplement(a, b)) with the caller\'s strategy and strict flag', z3.BoolVal(bool(ok)))
+        # recordcomplement
+        del log[:]
+        del it.summaries[SO + 'recordcomplement']
+        try:
+            r = it.call(closure_of(it, SO + 'recordcomplement'), [a, b], dict(strat, strict=st))
+        except PyExc as e:
+            ctx.oblige('recordcomplement: no exception for tables with the same field names', z3.BoolVal(False), e.origin or '')
+            return
+        cuts = [e for e in log if e[0] == 'cut']
+        comps = [e for e in log if e[0] == 'complement']
+        ok = len(cuts) == 1 and len(cuts[0][1]) == 3 and cuts[0][1][0] is b and cuts[0][1][1] is n1 and cuts[0][1][2] is n2 and not cuts[0][2] \
+            and len(comps) == 1 and comps[0][1] == [a, cuts[0][3]] and same_kw(comps[0][2], dict(strat, strict=st)) and r is comps[0][3]
+        ctx.oblige('recordcomplement(a, b) = complement(a, cut(b, *header(a))): b\'s fields selected BY NAME in a\'s field order; strategy and strict handed through',
+                   z3.BoolVal(bool(ok)))
+    h.explore(body)
